@@ -44,7 +44,7 @@ const sec = int64(1000000000)
 func hexs(s string) string { return fmt.Sprintf("%x", s) }
 
 func gen(rng *rand.Rand, tier core.Tier, emit core.Emit) {
-	n := 120
+	n := 500
 	if tier == core.Thorough {
 		n = 3000
 	}
